@@ -36,6 +36,8 @@ Count(s, x) == Cardinality({k \in DOMAIN s : s[k] = x})
 (*             distinct namespace objects reachable from the root (index NN+1 = an object that is not reachable); *)
 (*             the r* fields are paths exactly AS THE MODEL SPELLS THEM (not resolved against anything):          *)
 (*             output_folder, the namespace's own file, find_output_path_for_type(namespace), nested type paths   *)
+(* r.slisted : Seq([raw : Path, rel : Path])  the paths the support generator lists (dry run) / returns / prints,    *)
+(*             as spelled (raw) and as the location they denote relative to the output directory (rel)            *)
 (* r.given   : Path                        the output directory as the caller spelled it (lexical components)     *)
 (* r.denote  : Seq([b : Path, ok : BOOLEAN])  for the spellings met: does b denote the output directory?           *)
 (* r.pobs    : BOOLEAN                     parent links were observable                                            *)
@@ -62,7 +64,6 @@ RawStem(r, i) == Stem(r.types[i].short, r.types[i].maj, r.types[i].min)
 HarnessOK(r) ==
     /\ \A i \in 1..NT(r) : StropKnown(r, RawStem(r, i)) /\ \A k \in DOMAIN r.types[i].ns : StropKnown(r, r.types[i].ns[k])
     /\ \A i, j \in 1..NT(r) : i # j => r.types[i] # r.types[j]
-    /\ NT(r) > 0
     /\ Len(r.find) = NN(r) /\ \A n \in 1..NN(r) : Len(r.find[n]) = NT(r) /\ Len(r.nodes[n].paths) = Len(r.nodes[n].types)
 
 (* Names folded onto one identifier by the one-way stropping: two distinct DSDL namespaces, or two distinct     *)
@@ -181,12 +182,40 @@ AsGiven(r) ==
     /\ Cardinality(BasesOf(r)) <= 1
     /\ \A b \in BasesOf(r) : b = r.given \/ \E k \in DOMAIN r.denote : r.denote[k].b = b /\ r.denote[k].ok
 
+(* tree.support_inside: every path the support generator lists or creates lies under the output directory as    *)
+(* given (the created entries themselves are judged by tree.inside_outdir on the sandbox snapshot, which encloses *)
+(* the parent of the output directory)                                                                           *)
+SupportInside(r) ==
+    \A k \in DOMAIN r.slisted :
+        LET x == r.slisted[k]
+        IN /\ Below(x.rel)
+           /\ Len(x.raw) >= Len(x.rel) /\ TailOf(x.raw, Len(x.rel)) = x.rel
+           /\ LET b == StripTail(x.raw, Len(x.rel))
+              IN b = r.given \/ \E j \in DOMAIN r.denote : r.denote[j].b = b /\ r.denote[j].ok
+
+(* tree.empty_model: for the empty type set (support-only runs) the model is one namespace object without parent, *)
+(* children or types, which is its own root                                                                      *)
+EmptyModel(r) ==
+    /\ NN(r) = 1 /\ r.root = 1
+    /\ r.nodes[1].kids = <<>> /\ r.nodes[1].types = <<>> /\ r.nodes[1].up = 1
+    /\ r.pobs => r.nodes[1].parent = 0
+    /\ r.walk_types = <<>> /\ r.walk_ns = <<1>> /\ r.walk_any = <<[k |-> "ns", i |-> 1]>>
+    /\ Len(r.nodes[1].rout) = Len(r.nodes[1].rdir) + 1 /\ FrontOf(r.nodes[1].rout) = r.nodes[1].rdir /\ r.nodes[1].rfind = r.nodes[1].rout
+    /\ r.nodes[1].rdir = r.given \/ \E j \in DOMAIN r.denote : r.denote[j].b = r.nodes[1].rdir /\ r.denote[j].ok
+
 (* the clauses in the order that names a rejection (first failed clause) and numbers the bits of the mask *)
 Clauses(r) ==
     << <<"tree.inside_outdir", InsideOutdir(r)>>, <<"tree.type_once", TypeOnce(r)>>, <<"tree.ancestors", Ancestors(r)>>,
        <<"tree.links", Links(r)>>, <<"tree.path_total", PathTotal(r)>>, <<"tree.path_shape", PathShape(r)>>,
        <<"tree.injective", Injective(r)>>, <<"tree.one_file", OneFile(r)>>, <<"tree.ref_eq_gen", RefEqGen(r)>>,
-       <<"tree.as_given", AsGiven(r)>> >>
+       <<"tree.as_given", AsGiven(r)>>, <<"tree.support_inside", SupportInside(r)>>, <<"tree.empty_model", TRUE>> >>
+
+(* the same list for the empty type set: the clauses about types are vacuous, the model is the single empty namespace *)
+ClausesEmpty(r) ==
+    << <<"tree.inside_outdir", InsideOutdir(r)>>, <<"tree.type_once", TRUE>>, <<"tree.ancestors", TRUE>>, <<"tree.links", TRUE>>,
+       <<"tree.path_total", TRUE>>, <<"tree.path_shape", TRUE>>, <<"tree.injective", TRUE>>, <<"tree.one_file", OneFile(r)>>,
+       <<"tree.ref_eq_gen", TRUE>>, <<"tree.as_given", TRUE>>, <<"tree.support_inside", SupportInside(r)>>,
+       <<"tree.empty_model", EmptyModel(r)>> >>
 
 RECURSIVE FailMask(_, _)
 FailMask(cs, k) == IF k > Len(cs) THEN 0 ELSE (IF cs[k][2] THEN 0 ELSE 2 ^ (k - 1)) + FailMask(cs, k + 1)
@@ -198,7 +227,9 @@ FirstFailed(cs, k) == IF k > Len(cs) THEN "ok" ELSE IF cs[k][2] THEN FirstFailed
 (* output directory.                                                                                               *)
 Verdict(r) ==
     IF ~HarnessOK(r) THEN <<"harness.projection", 0>>
-    ELSE IF Folded(r) THEN (IF InsideOutdir(r) THEN <<"ok", 0>> ELSE <<"tree.inside_outdir", 1>>)
+    ELSE IF NT(r) = 0 THEN (LET cs == ClausesEmpty(r) IN <<FirstFailed(cs, 1), FailMask(cs, 1)>>)
+    ELSE IF Folded(r) THEN (IF InsideOutdir(r) /\ SupportInside(r) THEN <<"ok", 0>>
+                            ELSE IF InsideOutdir(r) THEN <<"tree.support_inside", 1024>> ELSE <<"tree.inside_outdir", 1>>)
     ELSE LET cs == Clauses(r) IN <<FirstFailed(cs, 1), FailMask(cs, 1)>>
 
 (* ======================================= PART 2: I-layer =============================================== *)
@@ -211,6 +242,8 @@ CONSTANTS Roots,        \* candidate root namespace names
           StropMode,    \* "prefix" (c, cpp: if -> _if) | "suffix" (py: if -> if_) | "none" (html)
           GenNsChoices, \* subset of BOOLEAN: generate namespace files too?
           Spellings,    \* how the caller spells the output directory: subset of {"abs", "rel", "slash", "dot", "dotdot", "symlink"}
+          SupportFromRootParent,  \* FALSE: the code as it is (support files below get_support_output_folder() = the base output path).
+                        \* TRUE: negative control - a SupportGenerator that takes `root namespace output_folder.parent` instead
           CanonNs       \* FALSE: the code as it is.  TRUE: negative control - a Namespace that canonicalises (resolves) ITS paths only
 
 VARIABLES types,        \* the input list, in the order the caller passes it
@@ -258,6 +291,8 @@ GivenM(sp) == CASE sp = "abs" -> <<NmSlash, NmS, NmOut>>
                 [] OTHER -> <<NmOut>>          \* "rel", "slash", "dot"
 (* Namespace.__init__: base_output_path / stropped components;  _add_data_type: base_output_path / make_path *)
 NsBaseM(sp) == IF CanonNs THEN CanonM(sp) ELSE GivenM(sp)
+(* the support file <support namespace folders>/<name><ext> below the support generator's target folder *)
+SupportRelM == <<<<110, 117, 110>>, <<115, 117, 112>>, <<115, 46, 104>>>>
 AllSpellings == {"abs", "rel", "slash", "dot", "dotdot", "symlink"}
 
 (* named constant values for the cfg files *)
@@ -288,12 +323,13 @@ Inj(f) == \A a, b \in DOMAIN f : a # b => f[a] # f[b]
 
 Init ==
     /\ \E root \in Roots :
-          types \in {f \in UNION {[1..k -> TypeU(root)] : k \in 1..MaxTypes} : Inj(f) /\ ValidInput(Ran(f))}
+          types \in {f \in UNION {[1..k -> TypeU(root)] : k \in 0..MaxTypes} : Inj(f) /\ ValidInput(Ran(f))}
     /\ genNs \in GenNsChoices
     /\ spell \in Spellings
-    /\ pc = "visit" /\ ti = 1 /\ wi = 0
+    /\ pc = (IF Len(types) = 0 THEN "link" ELSE "visit")     \* the empty type set (support-only run): both loops are skipped
+    /\ ti = 1 /\ wi = 0
     /\ first = <<>> /\ made = {} /\ index = {} /\ linked = {} /\ held = {} /\ par = {} /\ kids = {}
-    /\ out = [root |-> <<>>, files |-> {}, nwrites |-> 0]
+    /\ out = [root |-> <<>>, files |-> {}, nwrites |-> 0, sfiles |-> {}]
 
 CurNs == types[ti].ns
 
@@ -361,7 +397,7 @@ NsPath(n) == Append(SS(n), NsStemM \o ExtM)
 (* `return nsf.get_root_namesapce()`: the first namespace ever made, walked up to its root *)
 ReturnRoot ==
     /\ pc = "link" /\ index = linked
-    /\ out' = [out EXCEPT !.root = UpFrom(first)]
+    /\ out' = [out EXCEPT !.root = IF made = {} THEN <<>> ELSE UpFrom(first)]     \* nothing made: get_empty_namespace() = Namespace("")
     /\ pc' = "gen"
     /\ UNCHANGED <<types, genNs, spell, ti, wi, first, made, index, linked, held, par, kids>>
 
@@ -372,7 +408,8 @@ Generate ==
            tseq == TypesAlong(nseq)
            tf == {TypePath(tseq[k]) : k \in DOMAIN tseq}
            nf == IF genNs THEN {NsPath(nseq[k]) : k \in DOMAIN nseq} ELSE {}
-       IN out' = [out EXCEPT !.files = tf \cup nf, !.nwrites = Len(tseq) + (IF genNs THEN Len(nseq) ELSE 0)]
+       IN out' = [out EXCEPT !.files = tf \cup nf, !.nwrites = Len(tseq) + (IF genNs THEN Len(nseq) ELSE 0),
+                             !.sfiles = {SupportRelM}]     \* SupportGenerator.generate_all: target folder / support namespace / file
     /\ pc' = "done"
     /\ UNCHANGED <<types, genNs, spell, ti, wi, first, made, index, linked, held, par, kids>>
 
@@ -403,7 +440,12 @@ Proj ==
                        rout |-> NsBaseM(spell) \o NsPath(n),
                        rfind |-> NsBaseM(spell) \o NsPath(n),
                        rpaths |-> [k \in DOMAIN ts |-> GivenM(spell) \o TypePath(ts[k])]]
-        files == {TrueRelM(spell) \o f : f \in out.files}
+        \* where the support generator puts its files: as spelled / where that is relative to the output directory / in the sandbox
+        above == SupportFromRootParent /\ SS(out.root) = <<>>     \* `output_folder.parent` of the empty namespace is the PARENT of the base
+        sraw == {(IF above THEN StripTail(NsBaseM(spell), 1) ELSE GivenM(spell)) \o f : f \in out.sfiles}
+        srel(f) == IF above THEN <<DotDot>> \o f ELSE f
+        sloc == {(IF above THEN StripTail(TrueRelM(spell), 1) ELSE TrueRelM(spell)) \o f : f \in out.sfiles}
+        files == {TrueRelM(spell) \o f : f \in out.files} \cup sloc
         dirs == UNION {DirsOf(f) : f \in files}
         names == SetToSeq(AllNames)
     IN [types |-> types,
@@ -421,7 +463,8 @@ Proj ==
         given |-> GivenM(spell),
         denote |-> <<[b |-> GivenM(spell), ok |-> TRUE], [b |-> CanonM(spell), ok |-> TRUE]>>,
         created |-> SetToSeq({[p |-> f, d |-> FALSE] : f \in files} \cup {[p |-> d, d |-> TRUE] : d \in dirs}),
-        other |-> IF genNs THEN SetToSeq({NsPath(nl[k]) : k \in DOMAIN nl}) ELSE <<>>,
+        other |-> SetToSeq((IF genNs THEN {NsPath(nl[k]) : k \in DOMAIN nl} ELSE {}) \cup {srel(f) : f \in out.sfiles}),
+        slisted |-> SetToSeq({[raw |-> (IF above THEN StripTail(NsBaseM(spell), 1) ELSE GivenM(spell)) \o f, rel |-> srel(f)] : f \in out.sfiles}),
         refs |-> <<>>]
 
 (* ---- I => P ---- *)
